@@ -84,6 +84,25 @@ pub fn any_segments_at<const N: usize>(snd_una: u16) -> (Segments, [GhostSeg; N]
     (s, ghost)
 }
 
+/// N never-sent segments of symbolic sizes starting at `snd_una` (for harnesses of other components
+/// that only need a non-empty queue: `calc_pipe` skips never-sent segments).
+pub fn unsent_segments<const N: usize>(snd_una: u16) -> Segments {
+    let mut v: Vec<Segment> = Vec::with_capacity(N);
+    let mut off = 0u64;
+    let mut total = 0usize;
+    let mut i = 0;
+    while i < N {
+        let size: usize = kani::any();
+        kani::assume(size >= 1 && size <= MAX_SEG);
+        v.push(Segment { payload_size: size, payload_offset_absolute: off, is_delivered: false, sent: SentStatus::NotSent,
+            is_mtu_probe: false, is_lost: false, is_expired: false, has_sacks_after_it: false });
+        off += size as u64;
+        total += size;
+        i += 1;
+    }
+    Segments { segments: VecDeque::from(v), len_bytes: total, offset: off, removed_offset: 0, sack_depth: 0, last_sack_empty: false, snd_una: SeqNr(snd_una) }
+}
+
 /// Representation invariant: offsets chain contiguously from removed_offset, byte counters agree,
 /// the front segment is not delivered.
 pub fn inv(s: &Segments) -> bool {
